@@ -318,5 +318,6 @@ func main() {
 	r.Assume("sharder level only: the cluster clause (a span entering any node reaches the owner's collector after at most one forwarding hop through real routers) is NOT covered here; it belongs to the router/cluster fixture check. What is covered is its sharder-level core: on exactly one node of the cluster WhichShard(id).Equals(MyShard()) holds, and that node is the agreed owner")
 	r.Assume("'same list in any order' is read as the same multiset of addresses; lists that differ in multiplicity of an address (e.g. file peers whose Peers setting also names the node itself, giving a different duplicate on every node) are not required to agree and are not enumerated")
 	r.Assume("every node's own address is in the list it sees (a node absent from its own list cannot Start: it retries 5x5s and fails)")
+	clusterPart(r)
 	r.Finish()
 }
